@@ -74,3 +74,24 @@ def pmap(fn: Callable[[list], Any], items: list, jobs: int | None = None, min_it
             return pool.map(_worker, range(n))
     finally:
         _WORK.clear()
+
+
+def disk_cached(name: str, rels: tuple[str, ...]):
+    """Decorator for fold functions ``f(repo, *params)``: the result is a function of the named repository modules (a trailing '/' names every module
+    under that directory) and of the checker's own code."""
+    import functools
+
+    def deco(fn):
+        @functools.wraps(fn)
+        def wrapper(repo: Repo, *params, **kw):
+            mods = []
+            for r in rels:
+                if r.endswith("/"):
+                    mods += sorted(m for m in repo.modules if m.startswith(r))
+                elif r in repo.modules:
+                    mods.append(r)
+            return cached(repo, name, tuple(mods), (params, sorted(kw.items())), lambda: fn(repo, *params, **kw))
+
+        return wrapper
+
+    return deco
